@@ -3,7 +3,7 @@
 
   Hand translation, line by line, of
     src/subdevice/ports.rs   `Ports::{new, set_receive_times, open_ports, active_ports, entry_port,
-                              last_port, next_assignable_port, assign_next_downstream_port,
+                              last_port, has_free_downstream_port, next_assignable_port, assign_next_downstream_port,
                               port_assigned_to, topology, is_last_port, total_propagation_time,
                               intermediate_propagation_time_to, propagation_time_to}`, `Topology`
     src/subdevice/mod.rs     `SubDevice::is_child_of`
@@ -20,7 +20,7 @@
   * Every `unwrap_opt!`, `unreachable!` and unchecked arithmetic is an explicit `Outcome.panic`
     branch. `u32` arithmetic of the delay code is saturating in the source (kept), except the
     `.sum::<u32>()` of `intermediate_propagation_time_to` (unchecked: goes through `Mode`) and the
-    `i64` offset of `write_dc_parameters` (`wrapping_sub` since fix <COMMIT>).
+    `i64` offset of `write_dc_parameters` (`wrapping_sub` since fix 9a668b37).
   * Logging: the harness builds the crate without the `log`/`defmt` features, where
     `fmt::debug!(..)` expands to `let _ = (&arg, ..)`, i.e. the ARGUMENTS ARE EVALUATED. This makes
     `debug_print_ports` call `subdevice.ports.topology()` (which can panic) — modelled. With the
@@ -116,6 +116,12 @@ def Ports.lastPort (p : Ports) : Option Nat := p.activePorts.getLast?.map (·.1)
 /-- `iter.cycle().skip(skip).take(n)` -/
 def cycleSkipTake {α : Type} (l : List α) (skip n : Nat) : List α :=
   if l.length = 0 then [] else (List.range n).filterMap (fun j => l[(skip + j) % l.length]?)
+
+/-- `Ports::has_free_downstream_port()` (fix ce264667):
+    `self.active_ports().filter(|port| port.downstream_to.is_none()).count() > 1` — the entry port is
+    never assigned, so a further open port must be unassigned. -/
+def Ports.hasFreeDownstream (p : Ports) : Bool :=
+  decide ((p.activePorts.filter (fun q => q.2.downstream.isNone)).length > 1)
 
 /-- `Ports::next_assignable_port(this_port)`: slot of the first active port after `this_port` (in
     the cyclic order of the ACTIVE ports, starting `this_port.index() + 1` positions in) that has no
@@ -213,14 +219,17 @@ def isChildOf (sdIndex : Nat) (parent : Dev) : Outcome Err Bool :=
       | none => false
     .ok (t.isJunction && !attachedToLast)
 
-/-- `parents_it.find(|sd| sd.ports.topology().is_junction())` on the reversed remainder. -/
+/-- `parents_it.find(|sd| sd.ports.topology().is_junction() && sd.ports.has_free_downstream_port())`
+    on the reversed remainder (`&&` short-circuits: `topology()` is evaluated first). Before fix
+    ce264667 the closure was `topology().is_junction()` alone: the nearest earlier junction was taken
+    even when all its downstream ports were assigned. -/
 def findJunction : List Dev → Outcome Err Nat
   | [] => .err .topology
   | d :: rest =>
     match d.ports.topology with
     | .panic w => .panic w
     | .err e => .err e
-    | .ok t => if t.isJunction then .ok d.index else findJunction rest
+    | .ok t => if t.isJunction && d.ports.hasFreeDownstream then .ok d.index else findJunction rest
 
 /-- `find_subdevice_parent(parents, subdevice)` -/
 def findParent (parents : List Dev) : Outcome Err (Option Nat) :=
@@ -249,7 +258,7 @@ def assignOnParent (parents : List Dev) (parentIdx sdIndex : Nat) : Outcome Err 
   | none => .panic "unwrap of `parents.iter_mut().find(..)` failed"
   | some parent =>
     -- `NonZeroU16::new(subdevice.index).and_then(|index| parent.ports.assign_next_downstream_port(index))
-    --    .ok_or_else(|| Error::Topology)?`   (was `unwrap_opt!(.., "no free ports on parent")` before fix <COMMIT>)
+    --    .ok_or_else(|| Error::Topology)?`   (was `unwrap_opt!(.., "no free ports on parent")` before fix d65c78d2)
     if sdIndex = 0 then .err .topology
     else
       match parent.ports.assignNext sdIndex with
@@ -343,7 +352,7 @@ def assignLoop (m : Mode) : List Dev → Nat → List Dev → Outcome Err (List 
 
 /-- `assign_parent_relationships(subdevices)`: a DL status without any open port is rejected up
     front (`subdevices.iter().any(|sd| sd.ports.open_ports() == 0)` → `Err(Error::Topology)`, fix
-    <COMMIT>), so `Ports::topology()`'s `unreachable!` and `entry_port()`'s unwrap stay unreachable. -/
+    d65c78d2), so `Ports::topology()`'s `unreachable!` and `entry_port()`'s unwrap stay unreachable. -/
 def assignParentRelationships (m : Mode) (devs : List Dev) : Outcome Err (List Dev) :=
   if devs.any (fun d => d.ports.openPorts == 0) then .err .topology
   else assignLoop m [] 0 devs
@@ -391,7 +400,7 @@ def toI64 (x : Nat) : Int := if x < 9223372036854775808 then (x : Int) else (x :
 
 /-- `(now_nanos as i64).wrapping_sub(subdevice.dc_receive_time as i64)`, returned as the `u64` with
     the same bit pattern (what `send(maindevice, system_time_offset)` puts on the wire, little
-    endian). Wrapping by construction since fix <COMMIT> (before: unchecked `-(rx as i64) + now as
+    endian). Wrapping by construction since fix 9a668b37 (before: unchecked `-(rx as i64) + now as
     i64`, which panicked in checked builds); the build mode no longer matters. -/
 def offsetI64 (_m : Mode) (rx now : Nat) : Outcome Err Nat :=
   .ok ((toI64 now - toI64 rx) % 18446744073709551616).toNat
